@@ -12,6 +12,9 @@ CLAIMED = {
  "C03": ("exploration", "Hypothesis sizes/arguments; buffer lengths vs the transfer announced by the independently decoded CDB; both transports over auditing stand-in bindings", "4 C03",
          "Generated block sizes, transfer/allocation lengths, ATA transfer-mode combinations and parameter dictionaries for every class; buffers compared with the rule the standard attaches to the decoded CDB, then executed through SCSIDevice and ISCSIDevice over stand-in bindings which audit direction and lengths.",
          "stdspec/cdb.py; stand-ins for cython-sgio / cython-iscsi (DESIGN.md Appendix D); buffers bounded to 2^26 bytes"),
+ "C15": ("fault_enumeration", "event/fault-injection histories on a real SCSIDevice with a real node file under /dev/shm (replug, unplug, close failure, re-open failure, CHECK CONDITION, four endings); file-system + handle-log reference model", "4 C15",
+         "Generated histories of execute/replug/unplug/plug/armed-close-failure/armed-open-failure events with detection on and off, ended by close, with-exit (normal / by exception) or the facade's with; every command that reaches the binding must go through an open handle whose inode is the one now at the path, superseded handles must be closed, a vanished node must be reported, a failed close must still yield a fresh handle, and all handles must be released at the end. Thorough enumerates all event sequences up to length 4.",
+         "real tmpfs inodes; close/open failures injected through an open() wrapper in the module namespace; iSCSI: connect/disconnect counts on the stand-in"),
  "C16": ("exploration", "exhaustive type x qualifier x device-kind sweep + Hypothesis attach/re-attach/command sequences against per-device simulated targets; fresh-attach reference (no-leak relation)", "4 C16",
          "All 32 peripheral device types x 8 qualifiers x {plain object, SCSIDevice, ISCSIDevice} are enumerated; generated re-attach sequences check that attach sends exactly one standard INQUIRY, the selected set is the one the property names (or offers the primary commands), equals what a fresh facade selects for the same type, earlier devices are untouched, and later commands reach the new device with opcodes of the new set.",
          "simulated targets behind per-device routes of the stand-ins; which table unrecognised types get is not constrained"),
@@ -33,6 +36,12 @@ CLAIMED = {
  "C14": ("exploration", "exhaustive enumeration vs independent T10 table (differential oracle)", "4 C14",
          "Every table entry, service action, status code and all 256 opcode values are enumerated completely and compared with an independent transcription of T10's assignments; absence of a wrong value is established for the names the model knows, consistency only for the others.",
          "stdspec/opcodes.py (hand transcription of T10 op-num, SPC-4, SBC-3, SSC-4, SMC-3, MMC-6)"),
+ "C18": ("exploration", "Hypothesis RuleBasedStateMachine over up to 5 live enumerations (incl. OpCode-owned ones) in lock-step with a dict model; invariant over all live enumerations after each step", "4 C18",
+         "Stateful generated histories of create/add/remove/lookup/reverse-lookup on several enumerations alive at once, compared after every step with ordinary dictionaries that underwent the same operations (names, values, first-match reverse lookup, KeyError refusals, no cross-talk).",
+         "names restricted to the documented domain (identifiers not reserved by type/Enum); callable values excluded (Enum.keys filters callables by design)"),
+ "C19": ("exploration", "four binding-presence configurations in fresh subprocesses; import/build/facade smoke sweep; Hypothesis device strings x read/write x initiator names against the dispatch table with open/connect logs audited", "4 C19",
+         "Each presence combination of the sgio/iscsi bindings runs in its own interpreter (stand-in module or import blocker installed before pyscsi is first imported): every module is imported, every command built/encoded/decoded and run through the facade, then generated device strings (valid, near-miss, arbitrary) go through init_device and both device constructors; the oracle is the dispatch table of the property plus 'nothing opened or connected before a refusal'.",
+         "stand-ins / import blocker simulate presence; open() and os.stat() intercepted in the device module's namespace"),
 }
 props = [json.loads(l) for l in open(os.path.join(V, "properties.jsonl")) if l.strip()]
 man = {
